@@ -1,13 +1,300 @@
-(** C01 -- stage B sections (SELEC, DIFFU, INDOM, FOFT/COFT/GOFT, SHORT, MESHMAKER). *)
+(** C01 -- stage B sections (SELEC, DIFFU, INDOM, FOFT/COFT/GOFT, SHORT, MESHMAKER), statement
+    by statement after t2data.py. *)
 From Coq Require Import Ascii String List Bool Arith ZArith NArith Lia.
 From PTBase Require Import Exn PyStr PyNum PyVal Fmt FixedFormat.
+From Gen Require Import GenSections.
 From P Require Import Comb Obj Sections.
 Import ListNotations.
 Open Scope string_scope.
 
+(** [l[0:n]] for an int n *)
+Definition take_z (n : value) (l : list value) : res (list value) :=
+  match n with XInt z => Ok (pyslice (Some 0%Z) (Some z) l) | _ => Raise TypeError end.
+Definition v_nat (n : value) : res nat := match n with XInt z => Ok (Z.to_nat z) | _ => Raise TypeError end.
+Definition v_eq0 (v : value) : bool :=
+  match v with XInt z => (z =? 0)%Z | XReal _ m _ => (m =? 0)%Z | _ => false end.
+
 Section WithTable.
 Variable T : table.
-(** methods outside the model raise (the harness never sends such sections to the model) *)
+Notation sp := (sp T).
+Notation nm := (nm T).
+
+(** ** SELEC *)
+Definition write_selection (d : t2d) : res file :=
+  match selection d with
+  | None => Ok []
+  | Some (ints, floats) =>
+      do l1 <- wline T "selec1" ints;
+      do n <- v_nat (vnth ints 0);
+      do ch <- write_chunks (sp "selec2") (chunk_of "write_selection") n floats;
+      Ok (kw "SELEC" :: l1 :: ch)
+  end.
+Definition read_selection (d : t2d) (ls : file) : res (t2d * file) :=
+  let (l1, r1) := readline ls in
+  let ints := pline T "selec1" l1 in
+  do n <- v_nat (vnth ints 0);
+  let (fl, r2) := read_chunks_all (sp "selec2") n r1 in
+  Ok (set_selection d (Some (ints, fl)), r2).
+
+(** ** DIFFU *)
+Definition write_diffusion (d : t2d) : res file :=
+  match diffusion d with
+  | [] => Ok []
+  | cs => do ls <- mapM (fun c => wline T "diffusion" c) cs; Ok (kw "DIFFU" :: ls)
+  end.
+Fixpoint read_diffs (n : nat) (np : Z) (ls : file) : list (list value) * file :=
+  match n with
+  | O => ([], ls)
+  | S n' => let (l, r) := readline ls in
+            let (rest, r') := read_diffs n' np r in
+            (pyslice (Some 0%Z) (Some np) (pline T "diffusion" l) :: rest, r')
+  end.
+Definition read_diffusion (d : t2d) (ls : file) : res (t2d * file) :=
+  match dget (multi d) "num_components", dget (multi d) "num_phases" with
+  | Some nc, Some np =>
+      do n <- v_nat nc;
+      match np with
+      | XInt z => let (cs, r) := read_diffs n z ls in Ok (set_diffusion d (diffusion d +++ cs), r)
+      | XNone => match n with O => Ok (d, ls) | _ => Raise TypeError end
+      | _ => match n with O => Ok (d, ls) | _ => Raise TypeError end
+      end
+  | _, _ => Ok (d, ls)
+  end.
+
+(** ** INDOM *)
+Definition write_indom (d : t2d) : res file :=
+  match indom d with
+  | [] => Ok []
+  | items =>
+      do recs <- write_list (fun ri => do l <- wline T "indom2" (snd ri); Ok [fst ri +++ [nl]; l]) items;
+      Ok (kw "INDOM" :: concat recs +++ [[nl]])
+  end.
+Definition read_indom1 (acc : list (str * list value)) (line : str) (r : file) : res (list (str * list value) * file) :=
+  let (l2, r2) := readline r in
+  Ok (add_named same_key acc (slice 0 5 line, trim_nones (pline T "indom2" l2)), r2).
+Definition read_indom (d : t2d) (ls : file) : res (t2d * file) :=
+  do ar <- loop _ (fun l => l) blank read_indom1 (S (length ls)) (rev (indom d)) ls;
+  Ok (set_indom d (rev (fst ar)), snd ar).
+
+(** ** FOFT, COFT, GOFT *)
+Definition name_line (n : str) : str := unfix_blockname n +++ [nl].
+Definition pair_line (p : str * str) : str := unfix_blockname (fst p) +++ unfix_blockname (snd p) +++ [nl].
+Definition write_names (key : string) (l : list str) : res file :=
+  match l with [] => Ok [] | _ => Ok (kw key :: map name_line l +++ [[nl]]) end.
+Definition write_hist_block (d : t2d) : res file := write_names "FOFT" (hist_block d).
+Definition write_hist_gen (d : t2d) : res file := write_names "GOFT" (hist_gen d).
+Definition write_hist_conn (d : t2d) : res file :=
+  match hist_conn d with [] => Ok [] | l => Ok (kw "COFT" :: map pair_line l +++ [[nl]]) end.
+Definition has_conn (cs : list conn) (p : str * str) : bool :=
+  existsb (fun c => str_eqb (c_b1 c) (fst p) && str_eqb (c_b2 c) (snd p)) cs.
+(** names until a blank line; kept if [keep] (the grid is empty, or it has the block) *)
+Definition read_name1 (keep : str -> bool) (acc : list str) (line : str) (r : file) : res (list str * file) :=
+  do n <- fix_blockname (slice 0 5 line);
+  Ok (if keep n then n :: acc else acc, r).
+Definition read_pair1 (keep : str * str -> bool) (acc : list (str * str)) (line : str) (r : file) : res (list (str * str) * file) :=
+  do a <- fix_blockname (slice 0 5 line);
+  do b <- fix_blockname (slice 5 10 line);
+  Ok (if keep (a, b) then (a, b) :: acc else acc, r).
+Definition no_grid (d : t2d) : bool := match blocks d with [] => true | _ => false end.
+Definition read_hist_block (d : t2d) (ls : file) : res (t2d * file) :=
+  do ar <- loop _ (fun l => l) blank (read_name1 (fun n => no_grid d || has_block (blocks d) n)) (S (length ls)) [] ls;
+  Ok (set_hist_block d (rev (fst ar)), snd ar).
+Definition read_hist_gen (d : t2d) (ls : file) : res (t2d * file) :=
+  do ar <- loop _ (fun l => l) blank (read_name1 (fun n => no_grid d || has_block (blocks d) n)) (S (length ls)) [] ls;
+  Ok (set_hist_gen d (rev (fst ar)), snd ar).
+Definition read_hist_conn (d : t2d) (ls : file) : res (t2d * file) :=
+  do ar <- loop _ (fun l => l) blank (read_pair1 (fun p => no_grid d || has_conn (conns d) p)) (S (length ls)) [] ls;
+  Ok (set_hist_conn d (rev (fst ar)), snd ar).
+
+(** ** SHORT *)
+Definition write_short (d : t2d) : res file :=
+  match short d with
+  | None => Ok []
+  | Some s =>
+      do f <- match sh_freq s with
+              | Some v => if v_truthy v then
+                            match v with XInt z => Ok (fmt_int 2 z) | _ => Raise TypeError end
+                          else Ok []
+              | None => Ok [] end;
+      Ok ((s2l "SHORT" +++ f +++ [nl])
+          :: (match sh_block s with Some l => kw "ELEME" :: map name_line l | None => [] end)
+          +++ (match sh_conn s with Some l => kw "CONNE" :: map pair_line l | None => [] end)
+          +++ (match sh_gen s with Some l => kw "GENER" :: map pair_line l | None => [] end)
+          +++ [[nl]])
+  end.
+Definition short_kws : list str := [s2l "ELEME"; s2l "CONNE"; s2l "GENER"].
+Definition is_short_kw (line : str) : bool := existsb (str_eqb (slice 0 5 line)) short_kws.
+(** the sub-readers: items until a blank line or a sub-keyword line, which is returned *)
+Fixpoint short_items {X} (item : str -> res (option X)) (fuel : nat) (acc : list X) (ls : file) : res (list X * str * file) :=
+  match fuel with
+  | O => Raise OutOfFuel
+  | S f => let (l, r) := readline ls in
+           if blank l then Ok (rev acc, l, r)
+           else if is_short_kw l then Ok (rev acc, l, r)
+           else do x <- item l; short_items item f (match x with Some y => y :: acc | None => acc end) r
+  end.
+Definition has_gen (gs : list gen) (p : str * str) : bool :=
+  existsb (fun g => str_eqb (g_block g) (fst p) && str_eqb (g_name g) (snd p)) gs.
+Definition short_block_item (d : t2d) (l : str) : res (option str) :=
+  do n <- fix_blockname (slice 0 5 l); Ok (if has_block (blocks d) n then Some n else None).
+Definition short_pair_item (keep : str * str -> bool) (l : str) : res (option (str * str)) :=
+  do a <- fix_blockname (slice 0 5 l); do b <- fix_blockname (slice 5 10 l); Ok (if keep (a, b) then Some (a, b) else None).
+Fixpoint short_loop (d : t2d) (fuel : nat) (s : shortrec) (line : str) (ls : file) : res (shortrec * file) :=
+  match fuel with
+  | O => Raise OutOfFuel
+  | S f =>
+      if blank line then Ok (s, ls)
+      else
+        let k := slice 0 5 line in
+        if str_eqb k (s2l "ELEME") then
+          do x <- short_items (short_block_item d) (S (length ls)) [] ls;
+          let '(items, l', r) := x in short_loop d f (mk_short (sh_freq s) (Some items) (sh_conn s) (sh_gen s)) l' r
+        else if str_eqb k (s2l "CONNE") then
+          do x <- short_items (short_pair_item (has_conn (conns d))) (S (length ls)) [] ls;
+          let '(items, l', r) := x in short_loop d f (mk_short (sh_freq s) (sh_block s) (Some items) (sh_gen s)) l' r
+        else if str_eqb k (s2l "GENER") then
+          do x <- short_items (short_pair_item (has_gen (gens d))) (S (length ls)) [] ls;
+          let '(items, l', r) := x in short_loop d f (mk_short (sh_freq s) (sh_block s) (sh_conn s) (Some items)) l' r
+        else Raise KeyError
+  end.
+Definition read_short (d : t2d) (header : str) (ls : file) : res (t2d * file) :=
+  let s0 := match short d with Some s => s | None => mk_short None None None None end in
+  let s1 := mk_short (Some (vnth (pline T "short" header) 1)) (sh_block s0) (sh_conn s0) (sh_gen s0) in
+  let (l, r) := readline ls in
+  do x <- short_loop d (S (length ls)) s1 l r;
+  Ok (set_short d (Some (fst x)), snd x).
+
+(** ** MESHMAKER *)
+Definition write_rz2d_sub (x : str * dict * list value) : res file :=
+  let '(stype, dct, l) := x in
+  let head := upper stype +++ [nl] in
+  if str_eqb stype (s2l "radii") then
+    let n := length l in
+    do l1 <- wline T "radii1" [XInt (Z.of_nat n)];
+    do ch <- write_chunks (sp "radii2") (chunk_of "write_meshmaker_rz2d") (nlines_z (Z.of_nat (chunk_of "write_meshmaker_rz2d")) (Z.of_nat n)) l;
+    Ok (head :: l1 :: ch)
+  else if str_eqb stype (s2l "equid") then do l1 <- wline T "equid" (dict_vals dct (nm "equid")); Ok [head; l1]
+  else if str_eqb stype (s2l "logar") then do l1 <- wline T "logar" (dict_vals dct (nm "logar")); Ok [head; l1]
+  else if str_eqb stype (s2l "layer") then
+    let n := length l in
+    do l1 <- wline T "layer1" [XInt (Z.of_nat n)];
+    do ch <- write_chunks (sp "layer2") (chunk_of "write_meshmaker_rz2d") (nlines_z (Z.of_nat (chunk_of "write_meshmaker_rz2d")) (Z.of_nat n)) l;
+    Ok (head :: l1 :: ch)
+  else Ok [head].
+Definition write_xyz_sub (x : dict * list value) : res file :=
+  let (dct, deli) := x in
+  do l1 <- wline T "xyz2" (dict_vals dct (nm "xyz2"));
+  match dget dct "del" with
+  | None => Raise KeyError
+  | Some dl =>
+      if v_eq0 dl then
+        match dget dct "no" with
+        | None => Raise KeyError
+        | Some no =>
+            do n <- ceil_div no (chunk_of "write_meshmaker_xyz");
+            do k <- match no with XInt z => Ok (Z.to_nat z) | _ => Raise TypeError end;
+            do ch <- write_chunks (sp "xyz3") (chunk_of "write_meshmaker_xyz") n (firstn k deli);
+            Ok (l1 :: ch)
+        end
+      else Ok [l1]
+  end.
+Definition write_mm (m : mmsec) : res file :=
+  match m with
+  | MMrz2d subs => do ls <- mapM write_rz2d_sub subs; Ok (kw "RZ2D" :: concat ls)
+  | MMxyz deg subs =>
+      do l1 <- wline T "xyz1" [deg];
+      do ls <- mapM write_xyz_sub subs;
+      Ok (kw "XYZ" :: l1 :: concat ls +++ [[nl]])
+  | MMminc dct spacing vol =>
+      do l1 <- wline T "minc" [XStr (s2l "PART "); dgetv dct "type"; XStr []; dgetv dct "dual"];
+      let n := length vol in
+      do l2 <- wline T "part1" ([dgetv dct "num_continua"; XInt (Z.of_nat n); dgetv dct "where"] +++ spacing);
+      do ch <- write_chunks (sp "part2") (chunk_of "write_meshmaker_minc") (nlines_z (Z.of_nat (chunk_of "write_meshmaker_minc")) (Z.of_nat n)) vol;
+      Ok (kw "MINC" :: l1 :: l2 :: ch)
+  end.
+Definition write_meshmaker (d : t2d) : res file :=
+  match meshmaker d with
+  | [] => Ok []
+  | ms => do ls <- mapM write_mm ms; Ok (kw "MESHMAKER" :: concat ls +++ [[nl]])
+  end.
+
+Fixpoint read_rz2d (fuel : nat) (acc : list (str * dict * list value)) (ls : file) : res (list (str * dict * list value) * file) :=
+  match fuel with
+  | O => Raise OutOfFuel
+  | S f =>
+      let (line, r) := readline ls in
+      let keyword := strip (slice 0 5 line) in
+      if str_eqb keyword (s2l "RADII") then
+        let (l1, r1) := readline r in
+        do n <- ceil_div (vnth (pline T "radii1" l1) 0) (chunk_of "read_meshmaker_rz2d");
+        let (vs, r2) := read_chunks (sp "radii2") n r1 in
+        read_rz2d f ((lower keyword, [], vs) :: acc) r2
+      else if str_eqb keyword (s2l "EQUID") then
+        let (l1, r1) := readline r in
+        let dct := dict_update [] (nm "equid") (pline T "equid" l1) in
+        read_rz2d f (match dct with [] => acc | _ => (lower keyword, dct, []) :: acc end) r1
+      else if str_eqb keyword (s2l "LOGAR") then
+        let (l1, r1) := readline r in
+        let dct := dict_update [] (nm "logar") (pline T "logar" l1) in
+        read_rz2d f (match dct with [] => acc | _ => (lower keyword, dct, []) :: acc end) r1
+      else if str_eqb keyword (s2l "LAYER") then
+        let (l1, r1) := readline r in
+        let nl_ := vnth (pline T "layer1" l1) 0 in
+        do n <- ceil_div nl_ (chunk_of "read_meshmaker_rz2d");
+        let (vs, r2) := read_chunks_all (sp "layer2") n r1 in
+        do lay <- take_z nl_ vs;
+        Ok (rev ((lower keyword, [], lay) :: acc), r2)
+      else read_rz2d f acc r
+  end.
+Fixpoint read_xyz (fuel : nat) (acc : list (dict * list value)) (ls : file) : res (list (dict * list value) * file) :=
+  match fuel with
+  | O => Raise OutOfFuel
+  | S f =>
+      let (line, r) := readline ls in
+      if blank line then Ok (rev acc, r)
+      else
+        let v := pline T "xyz2" line in
+        let dct : dict := [("ntype", vnth v 0); ("no", vnth v 2); ("del", vnth v 3)] in
+        if v_eq0 (vnth v 3) then
+          do n <- ceil_div (vnth v 2) (chunk_of "read_meshmaker_xyz");
+          let (vs, r2) := read_chunks_all (sp "xyz3") n r in
+          do deli <- take_z (vnth v 2) vs;
+          read_xyz f ((dct, deli) :: acc) r2
+        else read_xyz f ((dct, []) :: acc) r
+  end.
+Definition read_minc (ls : file) : res (option mmsec * file) :=
+  let (l0, r) := readline ls in
+  let line := strip l0 in
+  if str_eqb (strip (slice 0 5 line)) (s2l "PART") then
+    let v := pline T "minc" line in
+    let (l1, r1) := readline r in
+    let v1 := pline T "part1" l1 in
+    do n <- ceil_div (vnth v1 1) (chunk_of "read_meshmaker_minc");
+    let (vs, r2) := read_chunks_all (sp "part2") n r1 in
+    do vol <- take_z (vnth v1 1) vs;
+    Ok (Some (MMminc [("type", vnth v 1); ("dual", vnth v 3); ("num_continua", vnth v1 0); ("where", vnth v1 2)] (skipn 3 v1) vol), r2)
+  else Ok (None, r).
+Fixpoint read_mm_loop (fuel : nat) (acc : list mmsec) (ls : file) : res (list mmsec * file) :=
+  match fuel with
+  | O => Raise OutOfFuel
+  | S f =>
+      let (line, r) := readline ls in
+      if blank line then Ok (rev acc, r)
+      else
+        let keyword := strip (slice 0 5 line) in
+        if str_eqb keyword (s2l "RZ2D") then
+          do x <- read_rz2d (S (length r)) [] r; read_mm_loop f (MMrz2d (fst x) :: acc) (snd x)
+        else if str_eqb keyword (s2l "XYZ") then
+          let (l1, r1) := readline r in
+          let deg := vnth (pline T "xyz1" l1) 0 in
+          do x <- read_xyz (S (length r1)) [] r1; read_mm_loop f (MMxyz deg (fst x) :: acc) (snd x)
+        else if str_eqb keyword (s2l "MINC") then
+          do x <- read_minc r;
+          read_mm_loop f (match fst x with Some m => m :: acc | None => acc end) (snd x)
+        else read_mm_loop f acc r
+  end.
+Definition read_meshmaker (d : t2d) (ls : file) : res (t2d * file) :=
+  do x <- read_mm_loop (S (length ls)) [] ls;
+  Ok (set_meshmaker d (meshmaker d +++ fst x), snd x).
+
 End WithTable.
-Definition write_methodB (T : table) (d : t2d) (m : string) : res file := Raise PlainException.
-Definition read_methodB (T : table) (d : t2d) (m : string) (line : str) (ls : file) : res (t2d * file) := Raise PlainException.
